@@ -39,6 +39,12 @@ def v2_jobs(prop, tier):
     # loaded as categorical: a foreign file (any index width, general decoder) / a file of this library (byte-wide
     # indices, fast path)
     cfgs += [("dict", "cat", "int64", 1, "2,2", 4, 0), ("dict", "cat", "int64", 1, "2,2", 8, 1)]
+    # value bytes compressed (the page header then carries two different sizes)
+    cfgs += [("dict", "float", "int64", 1, "2,2", "snappy"), ("plain", "float", "double", 1, "2,2", "snappy"),
+             ("plain", "float", "int64", 0, "2,2", "snappy")]
+    if tier == "thorough":
+        cfgs += [("delta", "float", "int64", 0, "2,2", "snappy"), ("dict", "cat", "int64", 1, "2,2", 4, 0, "snappy"),
+                 ("dict", "nullable", "int64", 1, "2,1", "snappy"), ("plain", "nullable", "int64", 1, "2,2", "snappy")]
     if tier == "thorough":
         cfgs += [("dict", "cat", "int64", 0, "2,2", 4, 0), ("dict", "cat", "int64", 1, "1,2", 8, 0),
                  ("dict", "cat", "int64", 0, "2,1", 8, 1), ("dict", "cat", "int64", 1, "3,2", 2, 0)]
@@ -49,11 +55,18 @@ def v2_jobs(prop, tier):
 def _v2(prop, harness, t, cfgs, functions):
     out = []
     for cfg in cfgs:
+        compressed = 0
+        if cfg and cfg[-1] == "snappy":
+            cfg, compressed = cfg[:-1], 1
         enc, outk, phys, opt, rows = cfg[:5]
         width, selfmade = (cfg[5], cfg[6]) if len(cfg) > 5 else (4, 0)
         shape = dict(encoding=enc, output=outk, physical=phys, optional=opt, page_rows=rows)
         env = dict(VERIF_ENC=enc, VERIF_OUT=outk, VERIF_PHYS=phys, VERIF_OPTIONAL=opt, VERIF_PAGE_ROWS=rows)
         tag = "[%s,%s,%s,opt=%d,pages=%s" % (enc, outk, phys, opt, rows)
+        if compressed:
+            shape["codec"] = "SNAPPY"
+            env["VERIF_COMPRESSED"] = 1
+            tag += ",snappy"
         if outk == "cat":
             shape.update(index_width=width, selfmade=selfmade)
             env.update(VERIF_WIDTH=width, VERIF_SELFMADE=selfmade)
@@ -74,6 +87,9 @@ def v2_masked_jobs(prop, tier):
                  ("plain", "nullable", "int64", 1, "1,2"), ("dict", "float", "int64", 1, "2,2"),
                  ("dict", "nullable", "int64", 1, "1,2"), ("plain", "float", "int64", 1, "1,1,2")]
     cfgs += [("dict", "cat", "int64", 1, "2,1", 4, 0), ("dict", "cat", "int64", 1, "2,1", 8, 1)]
+    cfgs += [("dict", "float", "int64", 1, "2,1", "snappy")]
+    if tier == "thorough":
+        cfgs += [("plain", "float", "int64", 1, "2,2", "snappy"), ("dict", "cat", "int64", 1, "2,1", 8, 1, "snappy")]
     if tier == "thorough":
         cfgs += [("dict", "cat", "int64", 0, "2,1", 8, 1), ("dict", "cat", "int64", 1, "1,2", 2, 0),
                  ("dict", "cat", "int64", 1, "2,2", 8, 1)]
